@@ -100,13 +100,13 @@ def build(tier: str) -> List[Cond]:
         conds.append(Cond(oid=f"deferred/static/tail={tail or '-'}", clause="unresolvable modification parses; mass/comp raise a ValueError-family error",
                           module="vf.h.c09", func="o_deferred", shape=dict(slot="static", tail=tail), sym=[("dummy", "bool")], pre=[], timeout=t,
                           functions=FUNCS, bounds="concrete value (regex is a realisation point)"))
-    for form in ("", "|", "xq|", "|xq", "xq||zz", "xq#g1", "Obs:xq", "U:xq"):
+    for form in ("", "|", "xq|", "|xq", "xq||zz", "xq#g1", "Obs:xq", "U:xq", "xq|INFO:a", "INFO:a|xq"):
         conds.append(Cond(oid=f"deferred/static/value={form or '-'}", clause="unresolvable modification parses; mass/comp raise a ValueError-family error",
                           module="vf.h.c09", func="o_deferred", shape=dict(slot="static", tail="", form=form), sym=[("dummy", "bool")], pre=[], timeout=t,
                           functions=FUNCS, bounds="concrete value (regex is a realisation point)"))
     # the corpus of unresolvable / malformed values around a symbolic tail: the empty value, empty and unknown '|' alternatives,
     # tagged and prefixed unknown names
-    FORMS = ["%s", "%s|", "|%s", "xq%s|", "xq|%s", "xq%s#g1", "Obs:xq%s", "U:xq%s", "%s|INFO:a"]
+    FORMS = ["%s", "%s|", "|%s", "xq%s|", "xq|%s", "xq%s#g1", "Obs:xq%s", "U:xq%s"]
     for si, slot in enumerate(("res", "nterm", "cterm", "labile", "unknown", "interval")):
         forms = FORMS if (tier == "thorough" or slot == "res") else [FORMS[(si * 3 + j) % len(FORMS)] for j in range(3)]
         for form in forms:
@@ -123,7 +123,8 @@ def build(tier: str) -> List[Cond]:
 
 
 def run(tier: str, seed: int, only=None) -> Report:
-    conds = build(tier)
+    from ..ch import tier_conds
+    conds = tier_conds(build, tier, cap=1000)
     if only:
         conds = [c for c in conds if only in c.oid]
     rep = Report(
